@@ -2270,10 +2270,41 @@ def push_down_new_base_methods(trees, stats):
       if isinstance(c, ast.ClassDef):
         classes.append((rel, c))
   n = 0
-  for rel, B in classes:
+  cinv_all = b.get('class_inventory', {})
+  for rel, B in list(classes):
     known = set(inv.get(rel, []))
     if not any(q.startswith(B.name + '.') for q in known):
-      continue       # a new class: handled by the class absorbers
+      # a NEW class used as a base ("extract superclass" / mixin): its plain methods (constructor included) go back into every textual subclass
+      # that lacks them, and it disappears from their bases
+      if B.name in set(cinv_all.get(rel, [])) or any(B.name in v for v in cinv_all.values()):
+        continue
+      subs = [(r2, d) for r2, d in classes if d is not B and any(ast.unparse(x).split('.')[-1] == B.name for x in d.bases)]
+      members = [m for m in B.body if not (isinstance(m, ast.Expr) and isinstance(m.value, ast.Constant))
+                 and not (isinstance(m, ast.Assign) and ast.unparse(m.targets[0]) == '__slots__')]
+      if not subs or not members or not all(isinstance(m, ast.FunctionDef) and not m.decorator_list for m in members):
+        continue
+      if any(ast.unparse(x) != 'object' for x in B.bases) or any(isinstance(x, ast.Name) and x.id == 'super' for m in members for x in ast.walk(m)):
+        continue
+      other_refs = [x for r2, t2 in trees.items() for x in ast.walk(t2) if isinstance(x, ast.Name) and x.id == B.name
+                    and not any(x is y for _, d in subs for y in d.bases)]
+      if other_refs:
+        continue
+      for r2, d in subs:
+        have = set(f.name for f in d.body if isinstance(f, ast.FunctionDef))
+        for m in members:
+          if m.name not in have:
+            d.body.append(copy.deepcopy(m))
+            n += 1
+        d.bases = [x for x in d.bases if ast.unparse(x).split('.')[-1] != B.name] or [ast.Name(id='object', ctx=ast.Load())]
+      for r2, t2 in trees.items():
+        if any(x is B for x in t2.body):
+          t2.body.remove(B)
+        for imp in [x for x in t2.body if isinstance(x, ast.ImportFrom)]:
+          imp.names = [a for a in imp.names if a.name != B.name]
+          if not imp.names:
+            t2.body.remove(imp)
+      classes[:] = [(r_, c_) for r_, c_ in classes if c_ is not B]
+      continue
     subs = [(r2, d) for r2, d in classes if d is not B and any(ast.unparse(x).split('.')[-1] == B.name for x in d.bases)]
     if not subs:
       continue
@@ -2587,6 +2618,244 @@ def _blocks_of(fn):
   return out
 
 
+def _resolve_from(rel, imp, modname):
+  """rel of the module an ImportFrom of module `rel` names, or None."""
+  src = imp.module or ''
+  if imp.level:
+    basepkg = rel[:-3].replace('/', '.').split('.')
+    if not rel.endswith('__init__.py'):
+      basepkg = basepkg[:-1]
+    if imp.level > 1:
+      basepkg = basepkg[:-(imp.level - 1)]
+    src = '.'.join(basepkg + ([imp.module] if imp.module else []))
+  return modname.get(src), src
+
+
+def _import_for(nm, atree, arel, src):
+  """An import statement that binds `nm` the way module A (atree) does, usable from any module of the package; None if A does not bind it."""
+  got = None
+  for st in atree.body:
+    if isinstance(st, ast.ImportFrom) and st.level == 0:
+      for a in st.names:
+        if (a.asname or a.name) == nm:
+          got = ast.ImportFrom(module=st.module, names=[ast.alias(name=a.name, asname=a.asname)], level=0)
+    elif isinstance(st, ast.ImportFrom) and st.level:
+      for a in st.names:
+        if (a.asname or a.name) == nm:
+          ab = arel[:-3].replace('/', '.').split('.')
+          if not arel.endswith('__init__.py'):
+            ab = ab[:-1]
+          if st.level > 1:
+            ab = ab[:-(st.level - 1)]
+          got = ast.ImportFrom(module='.'.join(ab + ([st.module] if st.module else [])), names=[ast.alias(name=a.name, asname=a.asname)], level=0)
+    elif isinstance(st, ast.Import):
+      for a in st.names:
+        if (a.asname or a.name).split('.')[0] == nm:
+          got = ast.Import(names=[ast.alias(name=a.name, asname=a.asname)])
+    elif isinstance(st, ast.Try):
+      for s2 in st.body:
+        if isinstance(s2, ast.ImportFrom):
+          for a in s2.names:
+            if (a.asname or a.name) == nm:
+              got = copy.deepcopy(st)       # the whole try/except import
+  if got is None and any((isinstance(st, FN + (ast.ClassDef,)) and st.name == nm) or (isinstance(st, ast.Assign) and any(isinstance(t, ast.Name) and t.id == nm for t in st.targets))
+                         for st in atree.body):
+    got = ast.ImportFrom(module=src, names=[ast.alias(name=nm, asname=None)], level=0)
+  return got
+
+
+def _bound_names(tree):
+  out = set()
+  for st in tree.body:
+    if isinstance(st, (ast.Import, ast.ImportFrom)):
+      for a in st.names:
+        out.add((a.asname or a.name).split('.')[0])
+    elif isinstance(st, (FN + (ast.ClassDef,))):
+      out.add(st.name)
+    elif isinstance(st, ast.Assign):
+      for t in st.targets:
+        for x in ast.walk(t):
+          if isinstance(x, ast.Name):
+            out.add(x.id)
+    elif isinstance(st, ast.Try):
+      for s2 in ast.walk(st):
+        if isinstance(s2, (ast.Import, ast.ImportFrom)):
+          for a in s2.names:
+            out.add((a.asname or a.name).split('.')[0])
+  return out
+
+
+def move_back_from_new_modules(trees, stats):
+  """"Move to a new module and import it back" undone: a module the reference tree does not have, whose top-level classes / functions / simple
+  constants are imported by name into a reference module, gives those definitions back to the importing module (at the place of the import,
+  together with the imports they need).  Done for the definitions the reference module is known to have had (by name, also as a nested class or a
+  static method -- the later steps put them back into their class) and for private helpers that came along."""
+  b = load_baseline()
+  inv = b.get('inventory', {})
+  cinv = b.get('class_inventory', {})
+  if not inv:
+    return
+  modname = {}
+  for rel in trees:
+    nm = rel[:-3].replace('/', '.')
+    if nm.endswith('.__init__'):
+      nm = nm[:-9]
+    modname[nm] = rel
+  base_rels = set(inv) | set(cinv) | set(k.split('::')[0] for k in (b.get('sources') or {}))
+  new_rels = [r for r in trees if r not in base_rels and not r.endswith('__init__.py')]
+  if not new_rels:
+    return
+  moved = 0
+  for rel, tree in trees.items():
+    if rel in new_rels:
+      continue
+    for imp in [x for x in list(tree.body) if isinstance(x, ast.ImportFrom)]:
+      _, src0 = _resolve_from(rel, imp, modname)
+      for al in list(imp.names):
+        arel = modname.get((src0 + '.' if src0 else '') + al.name)
+        if arel not in new_rels:
+          continue
+        local = al.asname or al.name
+        attrs = [n for n in ast.walk(tree) if isinstance(n, ast.Attribute) and isinstance(n.value, ast.Name) and n.value.id == local]
+        others = [n for n in ast.walk(tree) if isinstance(n, ast.Name) and n.id == local and not any(n is a_.value for a_ in attrs)]
+        bound = _bound_names(tree)
+        wanted = sorted(set(a_.attr for a_ in attrs))
+        if others or any(w in bound for w in wanted):
+          continue
+        for a_ in attrs:
+          _replace_node(tree, a_, ast.copy_location(ast.Name(id=a_.attr, ctx=a_.ctx), a_))
+        k = tree.body.index(imp)
+        tree.body.insert(k + 1, ast.ImportFrom(module=(src0 + '.' if src0 else '') + al.name, names=[ast.alias(name=w, asname=None) for w in wanted], level=0))
+        imp.names.remove(al)
+      if not imp.names:
+        tree.body.remove(imp)
+    ast.fix_missing_locations(tree)
+  for _round in range(2):
+    for rel, tree in trees.items():
+      if rel in new_rels:
+        continue
+      for imp in [x for x in list(tree.body) if isinstance(x, ast.ImportFrom)]:
+        arel, src = _resolve_from(rel, imp, modname)
+        if arel not in new_rels:
+          continue
+        atree = trees[arel]
+        k = tree.body.index(imp)
+        for al in list(imp.names):
+          if al.name == '*':
+            continue
+          defs = [x for x in atree.body if (isinstance(x, FN + (ast.ClassDef,)) and x.name == al.name)
+                  or (isinstance(x, ast.Assign) and len(x.targets) == 1 and isinstance(x.targets[0], ast.Name) and x.targets[0].id == al.name)]
+          if len(defs) != 1:
+            continue
+          d = defs[0]
+          local = al.asname or al.name
+          # what the definition needs: other definitions of the new module (moved along when private or wanted here too), imports of the new module
+          closure, todo = [d], [d]
+          names_a = dict((x.name, x) for x in atree.body if isinstance(x, FN + (ast.ClassDef,)))
+          names_a.update((x.targets[0].id, x) for x in atree.body if isinstance(x, ast.Assign) and len(x.targets) == 1 and isinstance(x.targets[0], ast.Name))
+          while todo:
+            cur_ = todo.pop()
+            for n in ast.walk(cur_):
+              if isinstance(n, ast.Name) and n.id in names_a and not any(names_a[n.id] is c for c in closure):
+                closure.append(names_a[n.id])
+                todo.append(names_a[n.id])
+          bound = _bound_names(tree)
+          extra = []
+          ok = True
+          free = set(n.id for c in closure for n in ast.walk(c) if isinstance(n, ast.Name) and isinstance(n.ctx, ast.Load))
+          for nm in sorted(free):
+            if nm in bound or nm in names_a or nm in (dir(__builtins__) if not isinstance(__builtins__, dict) else __builtins__):
+              continue
+            got = _import_for(nm, atree, arel, src)
+            if got is not None:
+              extra.append(got)
+          ordered = [x for x in atree.body if any(x is c for c in closure)]
+          new_nodes = []
+          for c in ordered:
+            cname = c.name if hasattr(c, 'name') else c.targets[0].id
+            if cname in bound and cname != local:
+              continue       # already here (moved by an earlier import)
+            cp = copy.deepcopy(c)
+            if c is d and local != al.name:
+              if hasattr(cp, 'name'):
+                cp.name = local
+              else:
+                cp.targets[0].id = local
+            new_nodes.append(cp)
+          tree.body[k + 1:k + 1] = extra + new_nodes
+          imp.names.remove(al)
+          moved += 1
+        if not imp.names:
+          tree.body.remove(imp)
+      ast.fix_missing_locations(tree)
+  if moved:
+    stats['moved_back_from_new_modules'] = moved
+    # a new module nobody imports any more is dropped from the analysis
+    for arel in new_rels:
+      used = False
+      for rel, tree in trees.items():
+        if rel == arel:
+          continue
+        for imp in ast.walk(tree):
+          if isinstance(imp, ast.ImportFrom) and _resolve_from(rel, imp, modname)[0] == arel:
+            used = True
+          elif isinstance(imp, ast.Import) and any(modname.get(a.name) == arel for a in imp.names):
+            used = True
+      if not used:
+        trees[arel].body = [x for x in trees[arel].body if isinstance(x, (ast.Import, ast.ImportFrom))] or [ast.Pass()]
+
+
+def restore_class_aliases(trees, stats):
+  """`Name = staticmethod(_f)` / `Name = _f` / `Name = _K` in a class body, where _f / _K is a module-level function / class that the reference
+  module does not have at module level while the reference class has a member `Name`: the definition moves back into the class under that name
+  (a static method again, or a nested class), and module-level uses of the bare name go through the class."""
+  b = load_baseline()
+  inv = b.get('inventory', {})
+  cinv = b.get('class_inventory', {})
+  n = 0
+  for rel, tree in trees.items():
+    known = set(inv.get(rel, []))
+    kcls = set(cinv.get(rel, []))
+    if not known:
+      continue
+    top = dict((x.name, x) for x in tree.body if isinstance(x, FN + (ast.ClassDef,)))
+    for C in [x for x in tree.body if isinstance(x, ast.ClassDef)]:
+      for st in list(C.body):
+        if not (isinstance(st, ast.Assign) and len(st.targets) == 1 and isinstance(st.targets[0], ast.Name)):
+          continue
+        name = st.targets[0].id
+        v = st.value
+        static = isinstance(v, ast.Call) and isinstance(v.func, ast.Name) and v.func.id == 'staticmethod' and len(v.args) == 1 and not v.keywords
+        ref = v.args[0] if static else v
+        if not isinstance(ref, ast.Name) or ref.id not in top:
+          continue
+        d = top[ref.id]
+        q = C.name + '.' + name
+        if isinstance(d, ast.ClassDef):
+          if q not in kcls or d.name in kcls:
+            continue
+        else:
+          if q not in known or d.name in known:
+            continue
+        # other uses of the module-level name
+        uses = [x for x in ast.walk(tree) if isinstance(x, ast.Name) and x.id == d.name and isinstance(x.ctx, ast.Load) and x is not ref]
+        inside_C = set(id(x) for x in ast.walk(C))
+        cp = d
+        tree.body.remove(d)
+        cp.name = name
+        if isinstance(d, FN) and (static or True):
+          if not any(ast.unparse(x) == 'staticmethod' for x in cp.decorator_list):
+            cp.decorator_list = [ast.Name(id='staticmethod', ctx=ast.Load())] + cp.decorator_list
+        C.body[C.body.index(st)] = cp
+        for u in uses:
+          _replace_node(tree, u, ast.copy_location(ast.Attribute(value=ast.Name(id=C.name, ctx=ast.Load()), attr=name, ctx=ast.Load()), u))
+        top.pop(ref.id, None)
+        n += 1
+    ast.fix_missing_locations(tree)
+  if n:
+    stats['class_aliases_restored'] = n
+
+
 def restore_package(trees, stats):
   """Before the per-module normalisation (on the raw trees)."""
   try:
@@ -2597,6 +2866,11 @@ def restore_package(trees, stats):
     _note_stable_attrs(trees)
   except Exception as e:
     stats['stable_error'] = repr(e)
+  try:
+    move_back_from_new_modules(trees, stats)
+    restore_class_aliases(trees, stats)
+  except Exception as e:
+    stats['moveback_error'] = repr(e)
   try:
     _note_struct_consts(trees)
     unwrap_thin_wrappers(trees, stats)
